@@ -9,6 +9,12 @@ require (
 	pgregory.net/rapid v1.3.0
 )
 
-require github.com/philhofer/fwd v1.1.2 // indirect
+require (
+	github.com/mattn/go-colorable v0.1.13 // indirect
+	github.com/mattn/go-isatty v0.0.17 // indirect
+	github.com/philhofer/fwd v1.1.2 // indirect
+	github.com/pkg/errors v0.9.1 // indirect
+	golang.org/x/sys v0.5.0 // indirect
+)
 
 replace github.com/evanoberholster/imagemeta => /repo
